@@ -553,3 +553,88 @@ fn run_with(cfg: RunConfig, gen: Option<(Swarm, u64)>, trace: Vec<Event>) -> Run
 
 #[allow(dead_code)]
 pub fn unused(_: BTreeMap<u8, u8>) {}
+
+
+/// C08, exhaustive part: builds (from the seed) a history in which a stabilising block with
+/// `n <= max_n` slice checks is due, then runs **every** set of pause positions inside that
+/// block (2^(n-1) traces: prefix + heartbeats with the corresponding budgets), each as an
+/// ordinary trace on a fresh canister with all C08 oracles on. Returns None if the seed does
+/// not produce a suitable history.
+pub fn run_c08_exhaustive(seed: u64, thorough: bool) -> Option<RunOutcome> {
+    let (mut cfg, mut sw) = gen::draw_config("C08", seed ^ 0xE8, thorough);
+    cfg.quiesce = false;
+    sw.slice_profile = 0;
+    sw.upgrades = false;
+    sw.fault_cfg = false;
+    sw.fault_clock = false;
+    sw.long_chain = false;
+    sw.script = None;
+    sw.tx_density = sw.tx_density.clamp(1, 3);
+    let max_n: u64 = if thorough { 10 } else { 8 };
+    // 1. prefix
+    let mut driver = Driver::new(&cfg).ok()?;
+    let mut rng = Rng::new(seed ^ 0xE8);
+    let mut found = None;
+    for _ in 0..140 {
+        let ev = gen::next_event(&mut sw, &driver.w, &mut rng);
+        if driver.step(&ev).is_err() {
+            return None; // the ordinary runs report this
+        }
+        let o = observe();
+        if o.ingesting.is_none() && driver.w.tasks.is_empty() && matches!(o.resp, RespKind::None) {
+            let v = crate::model::stability_verdict(&driver.w.tree, driver.w.threshold, driver.w.testnet_like());
+            if v.required.is_some() {
+                let anchor = driver.w.tree.anchor;
+                let n: u64 = driver
+                    .w
+                    .block(anchor)
+                    .block
+                    .txdata
+                    .iter()
+                    .map(|t| (if t.is_coinbase() { 0 } else { t.input.len() }) as u64 + t.output.len() as u64)
+                    .sum();
+                if (2..=max_n).contains(&n) {
+                    found = Some(n);
+                    break;
+                }
+            }
+        }
+    }
+    let n = found?;
+    let prefix = driver.events.clone();
+    let mut total = driver.finish();
+    total.nontrivial = true;
+    // 2. every set of pause positions {p1 < p2 < ...} within 1..n-1 (pause after p_i operations)
+    let masks = 1u64 << (n - 1);
+    for mask in 0..masks {
+        let mut events = prefix.clone();
+        let mut done = 0u64;
+        for p in 1..n {
+            if mask & (1 << (p - 1)) != 0 {
+                events.push(Event::Heartbeat { pause_at: p - done + 1 });
+                done = p;
+            }
+        }
+        events.push(Event::Heartbeat { pause_at: 0 });
+        events.push(Event::Heartbeat { pause_at: 0 });
+        let c = cfg.clone();
+        let o = crate::on_fresh_thread(move || run_trace(c, events)).ok()?;
+        total.stats.oracle_comparisons += o.stats.oracle_comparisons;
+        *total.stats.probes.entry("exhaustive_pause_sets_run".into()).or_insert(0) += 1;
+        for (k, v) in &o.stats.probes {
+            if k == "ingestion_paused" || k == "twin_compared" || k == "paused_twice_in_one_block" {
+                *total.stats.probes.entry(k.clone()).or_insert(0) += v;
+            }
+        }
+        for (id, x) in &o.known_hits {
+            total.known_hits.entry(id.clone()).or_insert(x.clone());
+        }
+        if o.violation.is_some() || o.harness_error.is_some() {
+            let mut bad = o;
+            bad.nontrivial = true;
+            return Some(bad);
+        }
+    }
+    *total.stats.probes.entry("exhaustive_blocks".into()).or_insert(0) += 1;
+    Some(total)
+}
